@@ -1,11 +1,13 @@
 import IcyVerif.Drv.Sauce
 import IcyVerif.Drv.SauceUni
+import IcyVerif.Drv.SauceLoad
 open IcyVerif.Drv
 
 def dispatch (line : String) : String :=
   match line.trimAscii.toString.splitOn " " with
   | "sauce" :: rest => Sauce.handle rest
   | "sauceuni" :: rest => SauceUni.handle rest
+  | "sauceload" :: rest => SauceLoad.handle rest
   | _ => "bad-op"
 
 partial def loop (h : IO.FS.Stream) (out : IO.FS.Stream) : IO Unit := do
